@@ -105,6 +105,11 @@ func (w *shakeWrapper) Clone() ShakeHash {
 	return &shakeWrapper{s, w.outputLen, w.squeezing, w.newSHAKE}
 }
 
+func (w *shakeWrapper) Reset() {
+	w.squeezing = false
+	w.SHAKE.Reset()
+}
+
 func (w *shakeWrapper) Size() int { return w.outputLen }
 
 func (w *shakeWrapper) Sum(b []byte) []byte {
